@@ -10,7 +10,6 @@ package harness
 
 import (
 	"context"
-	"os"
 	"fmt"
 	"math/rand/v2"
 	"runtime"
@@ -206,7 +205,7 @@ func runSuite(e *env) {
 	}
 	if failed == 0 {
 		e.report("C19", "violation-not-flagged", "faulty server ("+sr.fault+") passed every test written for that requirement", fmt.Sprintf("designated tests that ran and passed: %v", names), false)
-	} else if failed < ran && (strictFaults[sr.fault] || os.Getenv("VERIF_STRICT_ALL") != "") {
+	} else if failed < ran && !lenientFaults[sr.fault] {
 		var passed []string
 		for _, n := range names {
 			if sr.results[n] {
